@@ -28,6 +28,11 @@ func runC17(env *Env) {
 	for _, v := range ownershipViolations(fields, accs) {
 		rep.Violate("C17-ownership", "source census", v)
 	}
+	for _, a := range globalMapCensus(c) {
+		if !a.OK {
+			rep.Violate("C17-ownership", "source census", fmt.Sprintf("package-level map %s is touched by %s (write=%v) without the lock it needs", a.Var, a.Func, a.Write))
+		}
+	}
 	rep.Notes = append(rep.Notes, fmt.Sprintf("ownership census: %d fields of goroutine-owning types, %d accesses", len(fields), len(accs)))
 
 	raceBin, _ := filepath.Abs(filepath.Join(filepath.Dir(env.Out), "bpmnverif_race"))
@@ -165,6 +170,32 @@ func init() {
 				in.P.WaitUntilComplete(c)
 				cc()
 			})
+			// many tokens evaluating conditions nobody has compiled before, at the same time (a second instance)
+			{
+				q := &Prog{}
+				q.Node("start", "start")
+				q.Node("par", "F")
+				q.Node("end", "end")
+				q.Flow("start", "F", "")
+				for bi := 0; bi < 8; bi++ {
+					xn := fmt.Sprintf("X%d", bi)
+					xg := q.Node("xor", xn)
+					q.Flow("F", xn, "")
+					for ci := 0; ci < 3; ci++ {
+						q.Flow(xn, "end", fmt.Sprintf("n + %d == %d", r*1000+bi*10+ci, -1-ci))
+					}
+					xg.Default = q.Flow(xn, "end", "").ID
+				}
+				qd, err := ParseDefs(q.XML(""))
+				must(err)
+				qi, err := StartInst(qd, InstOpt{Vars: map[string]any{"n": 1}})
+				must(err)
+				qi.WaitCease(tmoStep)
+				if countEv(qi.Log(), "error", "*") > 0 {
+					rep.Violate("C17-outcome", fmt.Sprintf("round %d", r), "error traces while evaluating conditions concurrently; log: "+logString(qi.Log()))
+				}
+				qi.Close()
+			}
 			for i := 0; i < 40; i++ {
 				tt := in.WaitTask("T", tmoStep)
 				if tt == nil {
